@@ -112,6 +112,9 @@ var byteLenThresholds =[]int{1, 2, 8, 16, 31, 32, 33, 48, 64, 65, 128, 256, 257,
 // byteLen returns len(x.Bytes()) as a symbolic int.
 func (p *pathRun) byteLen(t *smt.Term) value {
 	c := p.ctx
+	if n := p.knownByteLen(t); n >= 0 {
+		return n // pinned by bounds already on the path: a concrete length
+	}
 	bl := c.App("bytelen", smt.Int, t)
 	var as []*smt.Term
 	as = append(as, c.Ge(bl, c.IntC64(0)), c.Eq(c.Eq(bl, c.IntC64(0)), c.Eq(t, c.IntC64(0))))
